@@ -46,6 +46,12 @@ def _combiner(expr, listname):
         return "intersection"
     if Pat(f"list(set.union(*[set(M_w) for M_w in {listname}]))").match(expr) is not None or "union" in u:
         return "union"
+    if Pat(f"toolz.merge(*{listname})").match(expr) is not None or Pat(f"merge(*{listname})").match(expr) is not None:
+        return "last-wins"
+    if Pat(f"{listname}[-1]").match(expr) is not None or Pat(f"{listname}[0]").match(expr) is not None:
+        return "pick-one"
+    if Pat(f"sum({listname})").match(expr) is not None:
+        return "sum"
     if Pat(f"all({listname})").match(expr) is not None:
         return "all"
     if Pat(f"any({listname})").match(expr) is not None:
